@@ -27,7 +27,7 @@ the markup parser (`get_parser_by_name(docformat, obj)(doc, errs)`), `to_stan`, 
 the `SummaryExtractor` walk, `build_table_of_content`, the `ParsedTypeDocstring` constructor.
 An outcome is "returns a value" or "raises `e`" — exceptions are explicit (`Exc`), and every
 place where the Python has no handler propagates (`Res.raises`).  The model follows /repo after
-the fixes c422501 (format_toc guards get_toc), 4caea46 (colorized_pyval_fallback guards to_node),
+the fixes 4690c0c (reportErrors keyed by phase), c422501 (format_toc guards get_toc), 4caea46 (colorized_pyval_fallback guards to_node),
 e1378c4 (search text guards to_node) and a0ab2a9 (epytext to_node keeps no half-built
 document, so `to_node` is a function of the parsed docstring, as the model assumes); the pre-fix
 `format_toc` survives as `formatTocOld`.  Errors a parser appended to the
@@ -180,11 +180,17 @@ structure Report where
   offset : Nat
   deriving DecidableEq, Repr, Inhabited
 
+/-- `phase` argument of reportErrors (4690c0c): parse_docstring / format_signature report with the default
+'parsing', safe_to_stan with 'rendering' -/
+inductive Phase | parsing | rendering
+  deriving DecidableEq, Repr, Inhabited
+
 structure St where
   objs : Obj → ObjSt
-  errors : List (Sec × Obj)   -- system.parse_errors[section] ∋ fullName, in insertion order
+  errors : List (Sec × Obj)   -- system.parse_errors[section] ∋ fullName, in insertion order (a set: no duplicates added)
   reports : List Report       -- log of report calls
   importMsg : Bool            -- the once-only 'Error trying to import … parser' message was issued
+  reported : List (Sec × Obj × Phase) := []   -- system.reported_errors: what reportErrors has reported already
 
 def setParsed (st : St) (o : Obj) (pd : PD) : St :=
   { st with objs := fun x => if x = o then { st.objs o with parsed := some pd } else st.objs x }
@@ -204,7 +210,19 @@ def Res.isOk {α : Type} : Res α → Bool
 
 /-! ### epydoc2stan.reportErrors -/
 
-def reportErrors (st : St) (obj : Obj) (errs : List Err) (sec : Sec) : St :=
+/-- since 4690c0c the once-only key is (section, fullName, phase): a failure to render is still reported when
+parsing already produced a warning; `parse_errors[section]` (a set of names) gains the name either way -/
+def reportErrors (st : St) (obj : Obj) (errs : List Err) (sec : Sec) (phase : Phase := .parsing) : St :=
+  if errs.isEmpty then st
+  else if st.reported.contains (sec, obj, phase) then st
+  else { st with
+          reported := st.reported ++ [(sec, obj, phase)],
+          errors := if st.errors.contains (sec, obj) then st.errors else st.errors ++ [(sec, obj)],
+          reports := st.reports ++ errs.map fun e => ⟨obj, sec, e.descr, e.offset⟩ }
+
+/-- HISTORICAL (before 4690c0c): one report group per (section, fullName) whatever the phase.
+Used only by `render_failure_masked_old_counterexample`. -/
+def reportErrorsOld (st : St) (obj : Obj) (errs : List Err) (sec : Sec) : St :=
   if errs.isEmpty then st
   else if st.errors.contains (sec, obj) then st
   else { st with
@@ -415,7 +433,7 @@ def safeToStanOut (st : St) (out : StanOut) (ctx : Obj) (fb : Fallback) (report 
   | .returns s => (s, st)
   | .raises e =>
     let r := applyFallback st fb ctx
-    (r.1, if report then reportErrors r.2 ctx [toStanError e] sec else r.2)
+    (r.1, if report then reportErrors r.2 ctx [toStanError e] sec .rendering else r.2)
 
 def safeToStan (env : Env) (st : St) (pd : PD) (ctx : Obj) (fb : Fallback) (report : Bool)
     (sec : Sec := 0) : Stan × St :=
@@ -585,8 +603,8 @@ def safeToStanPyval (env : Env) (st : St) (b : Body) (ctx : Obj) (sec : Sec) : R
   | .returns s => (.ok s, st)
   | .raises e =>
     match bodyToNode env b with
-    | .raises _ => (.ok .broken, reportErrors st ctx [toStanError e] sec)
-    | .returns => (.ok .code, reportErrors st ctx [toStanError e] sec)
+    | .raises _ => (.ok .broken, reportErrors st ctx [toStanError e] sec .rendering)
+    | .returns => (.ok .code, reportErrors st ctx [toStanError e] sec .rendering)
 
 /-- HISTORICAL (before 4caea46): `to_node` ran inside the `except` block of safe_to_stan with no
 handler of its own: if it raised, that exception left safe_to_stan, and nothing was reported.
